@@ -542,6 +542,7 @@ type SpecFile struct {
 type AbsDef struct {
 	Field string
 	Param string // bound index variable for map-like fields ("" for scalars)
+	Param2 string // second index for nested maps
 	Body  Expr
 	Src   string
 }
@@ -678,7 +679,12 @@ func ParseSpecFile(path, pkg string) (*SpecFile, error) {
 			ad := &AbsDef{Field: head, Src: body}
 			if j := strings.Index(head, "["); j > 0 && strings.HasSuffix(head, "]") {
 				ad.Field = head[:j]
-				ad.Param = head[j+1 : len(head)-1]
+				inner := head[j+1 : len(head)-1]
+				if k := strings.Index(inner, "]["); k > 0 {
+					ad.Param, ad.Param2 = inner[:k], inner[k+2:]
+				} else {
+					ad.Param = inner
+				}
 			}
 			e, err := ParseExpr(body)
 			if err != nil {
